@@ -49,7 +49,12 @@ static std::string obs_diff(const Obs &a, const Obs &b) {
     }
     for (size_t i = 0; i < a.errs.size(); i++) if (a.errs[i] != b.errs[i])
         return "error #" + std::to_string(i + 1) + " is " + cm::code_name(a.errs[i].first) + " at line " + std::to_string(a.errs[i].second) + " for the LF document but " + cm::code_name(b.errs[i].first) + " at line " + std::to_string(b.errs[i].second) + " for the variant";
-    if (a.dump != b.dump) return "stored content differs\n--- LF document\n" + a.dump.substr(0, 1500) + "--- variant\n" + b.dump.substr(0, 1500);
+    if (a.dump != b.dump) {
+        size_t i = 0; while (i < a.dump.size() && i < b.dump.size() && a.dump[i] == b.dump[i]) i++;
+        size_t from = i > 300 ? i - 300 : 0;
+        return "stored content differs at offset " + std::to_string(i) + " of the canonical dump (" + std::to_string(a.dump.size()) + " vs " + std::to_string(b.dump.size()) + " bytes)\n--- LF document\n" +
+               a.dump.substr(from, 700) + "\n--- variant\n" + b.dump.substr(from, 700);
+    }
     return "";
 }
 
@@ -88,13 +93,21 @@ static std::string to_utf16le(const std::string &utf8) {
     for (char16_t c : u) { o += (char) (c & 0xFF); o += (char) (c >> 8); }
     return o;
 }
-// the document is  line1 (magic) + three comment lines + rest; the comment lines' lengths are the padding
-static std::string with_padding(const std::string &lf_doc, size_t pad) {
-    size_t e = lf_doc.find('\n');
-    std::string head = e == std::string::npos ? std::string() : lf_doc.substr(0, e + 1), rest = e == std::string::npos ? lf_doc : lf_doc.substr(e + 1);
+// the document is  line1 (magic) + three comment lines + rest; the comment lines' lengths are the padding.  A second padding site
+// (three more comment lines) sits directly before the appended "data_big" block when there is one, so that two bytes of the
+// document can be aligned to fill boundaries independently (state carried from one buffer fill to a later one).
+static const char *BIG_MARK = "\ndata_big _big\n;";
+static std::string pad_lines(size_t pad) {
     std::string p;
     for (int i = 0; i < 3; i++) { size_t n = std::min<size_t>(pad, 1500); pad -= n; p += "#" + std::string(n, 'p') + "\n"; }
-    return head + p + rest;
+    return p;
+}
+static std::string with_padding(const std::string &lf_doc, size_t pad, size_t pad2 = 0) {
+    size_t e = lf_doc.find('\n');
+    std::string head = e == std::string::npos ? std::string() : lf_doc.substr(0, e + 1), rest = e == std::string::npos ? lf_doc : lf_doc.substr(e + 1);
+    size_t b = rest.rfind(BIG_MARK);
+    if (b != std::string::npos) rest = rest.substr(0, b + 1) + pad_lines(pad2) + rest.substr(b + 1);
+    return head + pad_lines(pad) + rest;
 }
 
 static std::string run_case(const CaseFile &c) {
@@ -105,23 +118,32 @@ static std::string run_case(const CaseFile &c) {
     { std::istringstream in(c.get("mix")); int v; while (in >> v) mix.push_back(v); }
     { std::istringstream in(c.get("chunks")); int v; while (in >> v) chunks.push_back(v); }
     CaseGuard guard;
-    // reference: LF, padding 0 (three empty comment lines so that line numbers agree)
-    std::string ref_bytes = with_padding(base, 0);
-    Obs ref = observe(ref_bytes, nullptr, utf16);
     // variant: choose the padding so that byte `target` of the *variant without padding* lands at offset delta (mod 4096) of a buffer fill
     std::string v0 = eol_variant(with_padding(base, 0), kind, mix);
     if (utf16) v0 = to_utf16le(v0);
-    size_t pad = 0;
-    if (target >= 0 && (size_t) target < v0.size()) {
-        long unit = utf16 ? 2 : 1;
-        long want = ((4096 + delta) % 4096);
-        long cur = target % 4096;
-        long shift = ((want - cur) % 4096 + 4096) % 4096;      // bytes to insert before the target
-        pad = (size_t) (shift / unit);
-        if (pad > 4400) pad = 0;
+    size_t pad = 0, pad2 = 0;
+    long unit = utf16 ? 2 : 1;
+    auto shift_for = [&](const std::string &v, long tgt, long dlt) -> size_t {
+        if (tgt < 0 || (size_t) tgt >= v.size()) return 0;
+        long want = ((4096 + dlt) % 4096), cur = tgt % 4096;
+        size_t p = (size_t) ((((want - cur) % 4096 + 4096) % 4096) / unit);      // units to insert before the target
+        return p > 4400 ? 0 : p;
+    };
+    pad = shift_for(v0, target, delta);
+    long target2 = c.geti("target2", -1), delta2 = c.geti("delta2", 0);
+    if (target2 >= 0) {
+        // second alignment: target2 indexes the variant *with the first padding applied*; only the second site moves it
+        std::string v1 = eol_variant(with_padding(base, pad, 0), kind, mix);
+        if (utf16) v1 = to_utf16le(v1);
+        long t2 = target2 + (long) pad * unit;
+        pad2 = shift_for(v1, t2, delta2);
     }
-    std::string vb = eol_variant(with_padding(base, pad), kind, mix);
+    std::string vb = eol_variant(with_padding(base, pad, pad2), kind, mix);
     if (utf16) vb = to_utf16le(vb);
+    // reference: LF, first padding 0 (three empty comment lines so that line numbers agree).  The second padding site may lie inside a
+    // multi-line value when the document was mutated, so the reference carries the same second padding as the variant.
+    std::string ref_bytes = with_padding(base, 0, pad2);
+    Obs ref = observe(ref_bytes, nullptr, utf16);
     Obs var = observe(vb, chunks.empty() ? nullptr : &chunks, utf16);
     std::string msg = obs_diff(ref, var);
     // labels
@@ -129,6 +151,7 @@ static std::string run_case(const CaseFile &c) {
     if (utf16) label("utf16");
     if (!chunks.empty()) label("shortread");
     if (pad) label("padded");
+    if (pad2) label("padded-twice");
     if (!ref.errs.empty()) label("err-seq");
     if (vb.size() > 4096) label("size>4096");
     if (vb.size() > 133120 * (utf16 ? 2 : 1)) label("size>scan-buffer");
@@ -137,7 +160,17 @@ static std::string run_case(const CaseFile &c) {
     bool straddle = false;
     if (!utf16) for (size_t off = 4095; off + 1 < vb.size(); off += 4096) if (vb[off] == '\r' && vb[off + 1] == '\n') straddle = true;
     if (straddle) label("straddle-crlf");
-    if ((nl_in_value && vb.size() > 4096) || straddle || (pad && kind != V_LF)) nontrivial(fnv(vb));
+    bool carried = false;
+    if (!utf16 && vb.size() > 8192) {
+        // a bare CR ending one fill and a bare LF opening a later fill (scanner state carried across fills)
+        bool end_cr = false;
+        for (size_t off = 4096; off < vb.size(); off += 4096) {
+            if (end_cr && vb[off] == '\n' && vb[off - 1] != '\r') carried = true;
+            if (vb[off - 1] == '\r' && vb[off] != '\n') end_cr = true;
+        }
+        if (carried) label("bare-cr-ends-fill,lf-opens-later-fill");
+    }
+    if ((nl_in_value && vb.size() > 4096) || straddle || carried || (pad && kind != V_LF)) nontrivial(fnv(vb));
     if (!msg.empty()) msg += "\n(variant " + std::to_string(kind) + (utf16 ? ", UTF-16LE" : "") + ", padding " + std::to_string(pad) + ", " + std::to_string(vb.size()) + " bytes)";
     if (msg.empty()) msg = guard.check();
     return msg;
@@ -192,11 +225,24 @@ int main(int argc, char **argv) {
             c.seti("utf16", *g::chance(12) ? 1 : 0);
             if (*g::chance(30)) { std::string m; int n = *g::range(1, 6); for (int i = 0; i < n; i++) m += std::to_string(*rc::gen::element(1, 2, 3, 7, 100, 1000, 4095, 4096, 4097, 10000)) + " "; c.set("chunks", m); }
             // target: a byte of the document to move next to a fill boundary: prefer line terminators inside values and multi-byte characters
-            if (*g::chance(75)) {
-                std::vector<long> cand;
-                std::string v0 = eol_variant(with_padding(bytes, 0), (int) c.geti("variant"), {0, 1, 2});
-                for (size_t i = 0; i < v0.size(); i++) { unsigned char ch = (unsigned char) v0[i]; if (ch == '\r' || ch == '\n' || ch >= 0xC0 || ch == '\'' || ch == ';' || ch == ':') cand.push_back((long) i * (c.geti("utf16") ? 2 : 1)); }
-                if (!cand.empty()) { c.seti("target", cand[(size_t) *g::range(0, 999999) % cand.size()]); c.seti("delta", *g::range(-4, 4)); } else c.seti("target", -1);
+            bool two = big && !c.geti("utf16") && *g::chance(40);      // two-boundary mode: one terminator ends a fill, another opens a later fill
+            if (two) c.seti("variant", V_MIXED);
+            if (two || *g::chance(75)) {
+                std::vector<long> cand, cand2;
+                std::vector<int> mixv; { std::istringstream in(c.get("mix")); int v; while (in >> v) mixv.push_back(v); }
+                std::string v0 = eol_variant(with_padding(bytes, 0), (int) c.geti("variant"), two ? mixv : std::vector<int>{0, 1, 2});
+                size_t bigpos = v0.rfind("data_big _big");
+                for (size_t i = 0; i < v0.size(); i++) {
+                    unsigned char ch = (unsigned char) v0[i];
+                    bool eol = ch == '\r' || ch == '\n';
+                    if (two ? (eol && (bigpos == std::string::npos || i < bigpos)) : (eol || ch >= 0xC0 || ch == '\'' || ch == ';' || ch == ':')) cand.push_back((long) i * (c.geti("utf16") ? 2 : 1));
+                    if (two && eol && bigpos != std::string::npos && i > bigpos + 4096) cand2.push_back((long) i);
+                }
+                if (!cand.empty()) {
+                    c.seti("target", cand[(size_t) *g::range(0, 999999) % cand.size()]);
+                    c.seti("delta", two ? *rc::gen::weightedElement<int>({{6, -1}, {2, -2}, {2, 0}}) : *g::range(-4, 4));
+                    if (two && !cand2.empty()) { c.seti("target2", cand2[(size_t) *g::range(0, 999999) % cand2.size()]); c.seti("delta2", *rc::gen::weightedElement<int>({{6, 0}, {2, -1}, {2, 1}})); }
+                } else c.seti("target", -1);
             } else c.seti("target", -1);
             VH_BEGIN(c);
             if (bytes.size() < 200) sample("variant=" + std::to_string(c.geti("variant")) + " " + bytes);
